@@ -1,7 +1,8 @@
 /-
   C16 — source tie, the component `write` methods (`TemperatureProfile.write`, `Isothermal.write`, `Guillot2010.write`,
   `NPoint.write`, `ForwardModel.write`, `SimpleForwardModel.write`, `TransmissionModel.write`, `Chemistry.write`,
-  `TaurexChemistry.write`): the ORACLE for the objects they act on.
+  `TaurexChemistry.write`; `Star.write`, `BasePlanet.write`, `PressureProfile.write`, `SimplePressureProfile.write`,
+  `Gas.write` and its subclasses, `Contribution.write` and its subclasses): the ORACLE for the objects they act on.
 
   * a component instance is `comp cls attr part`: its class name (`self.__class__.__name__`), its data attributes as model
     values (`attr`, embedded by `embW`: numbers, strings, lists, a numeric ndarray is the object `nd a`, `None` is the
@@ -11,6 +12,8 @@
   * an output group is `group p` as in `Proofs/C16SrcStore.lean`; the state is the same log of created entries, `flat`
     relates it to the model's nodes.  `write_scalar / write_array / write_string / write_string_array / create_group`
     behave as in `SWorld.ext`; `np.array(list)` is `Output.toNdList … |>.bind stack`; `self.model()` leaves the file alone.
+  * `a / b` of two floats is `w.div a b` (`ZeroDivisionError` for `b = 0`); the module-level float constants the methods
+    read (`MJUP`, `RJUP`, `AU`, `RSOL`, `MSOL`) are `w.consts`.
 -/
 import Proofs.C16SrcStore
 import Proofs.C16Lemmas
@@ -109,13 +112,21 @@ end
 structure WWorld (α : Type) where
   enc : List Nat → String
   dec : String → List Nat
+  /-- `a / b` on floats (`b ≠ 0`) -/
+  div : α → α → α
+  /-- the module-level float constants the `write` methods read (`MJUP`, `RSOL`, …) -/
+  consts : String → Option α
 
 def WWorldOK (w : WWorld α) : Prop := ∀ s, w.dec (w.enc s) = s
 
 def wlog (p : List String) (k : String) (n : Node α) : SM α (WV α) := fun s => (.ok .none, s ++ [(p, k, n)])
 
-def WWorld.ext [OfInt α] (w : WWorld α) : Ext (SM α) α (WObj α) where
-  global name := if name = "np" then pure (.obj .np) else throw .NameError
+def WWorld.ext [OfInt α] [FloatLike α] (w : WWorld α) : Ext (SM α) α (WObj α) where
+  global name :=
+    if name = "np" then pure (.obj .np)
+    else match w.consts name with
+      | some x => pure (.float x)
+      | none => throw .NameError
   getattr o name :=
     match o with
     | .comp c attr part =>
@@ -192,6 +203,10 @@ def WWorld.ext [OfInt α] (w : WWorld α) : Ext (SM α) α (WObj α) where
       | [.dict _, .str "__len__"] => pure (.bool true)
       | [.obj (.nd _), .str "__len__"] => pure (.bool true)
       | [_, .str _] => pure (.bool false)
+      | _ => throw .TypeError
+    else if name = "/" then
+      match args with
+      | [.float a, .float b] => if FloatLike.isZero b then throw .ZeroDivisionError else pure (.float (w.div a b))
       | _ => throw .TypeError
     else throw .TypeError
   parseFloat _ := none
@@ -382,6 +397,224 @@ structure ChemAttrs (attr : String → Option (Value α)) (act inact : List (Lis
   inact : attr "inactiveGases" = some (.list (inact.map .str))
   has : attr "hasCondensates" = some (.bool cond.isSome)
   cond : ∀ cd, cond = some cd → attr "condensates" = some (.list (cd.map .str))
+
+/-! ### star, planet, pressure profile, gas profiles, contributions -/
+
+/-- a Python scalar (`int`, `float`, `bool`) -/
+def Scalar (v : Value α) : Prop := (∃ i, v = .int i) ∨ (∃ x, v = .float x) ∨ (∃ b, v = .bool b)
+
+/-- a scalar, a numeric array or a string: what `write_scalar`, `write_array`, `write_string` take -/
+def Leaf (v : Value α) : Prop := Scalar v ∨ (∃ a, v = .array a) ∨ (∃ t, v = .str t)
+
+/-- the node `write_scalar` / `write_array` / `write_string` create for a scalar / array / string -/
+def leafNode : Value α → Node α
+  | .int i => .num ⟨[], .ints [i]⟩
+  | .float x => .num ⟨[], .floats [x]⟩
+  | .bool b => .num ⟨[], .bools [b]⟩
+  | .array a => .num a
+  | .str t => .vstr t
+  | _ => .group []
+
+theorem scalar_float (x : α) : Scalar (Value.float x) := Or.inr (Or.inl ⟨x, rfl⟩)
+theorem scalar_int (i : Int) : Scalar (Value.int i : Value α) := Or.inl ⟨i, rfl⟩
+theorem scalar_bool (b : Bool) : Scalar (Value.bool b : Value α) := Or.inr (Or.inr ⟨b, rfl⟩)
+theorem leaf_scalar {v : Value α} (h : Scalar v) : Leaf v := Or.inl h
+theorem leaf_array (a : Arr α) : Leaf (Value.array a) := Or.inr (Or.inl ⟨a, rfl⟩)
+theorem leaf_str (t : List Nat) : Leaf (Value.str t : Value α) := Or.inr (Or.inr ⟨t, rfl⟩)
+
+theorem storeThing_leaf (k : String) (v : Value α) (h : Leaf v) : storeThing k v = .ok [(k, leafNode v)] := by
+  rcases h with (⟨i, rfl⟩ | ⟨x, rfl⟩ | ⟨b, rfl⟩) | ⟨a, rfl⟩ | ⟨t, rfl⟩ <;> simp [storeThing, leafNode]
+
+theorem storeEntries_leaves : ∀ l : List (String × Value α), (∀ e ∈ l, Leaf e.2) →
+    storeEntries l = .ok (l.map (fun e => (e.1, leafNode e.2)))
+  | [], _ => by simp [storeEntries]
+  | (k, v) :: r, h => by
+    rw [storeEntries, storeThing_leaf k v (h (k, v) List.mem_cons_self),
+      storeEntries_leaves r (fun e he => h e (List.mem_cons_of_mem _ he))]
+    simp
+
+/-- the stored form of a component record whose entries are scalars, arrays and strings -/
+theorem store_component_leaves (name typeKey : String) (c : List Nat) (entries : List (String × Value α))
+    (h : ∀ e ∈ entries, Leaf e.2) :
+    storeThing name (writeComponent typeKey c entries)
+      = .ok [(name, .group ((typeKey, .vstr c) :: entries.map (fun e => (e.1, leafNode e.2))))] := by
+  have h' : ∀ e ∈ (typeKey, Value.str c) :: entries, Leaf e.2 := by
+    intro e he
+    rcases List.mem_cons.1 he with rfl | he
+    · exact leaf_str c
+    · exact h e he
+  rw [writeComponent, storeThing_dict, storeEntries_leaves _ h']
+  simp [leafNode]
+
+theorem wf_leaf {v : Value α} (h : Leaf v) (ha : ∀ a, v = .array a → (a.shape != []) = true) :
+    Output.wfVal v = true ∧ Output.isDict v = false := by
+  rcases h with (⟨i, rfl⟩ | ⟨x, rfl⟩ | ⟨b, rfl⟩) | ⟨a, rfl⟩ | ⟨t, rfl⟩
+  · exact ⟨rfl, rfl⟩
+  · exact ⟨rfl, rfl⟩
+  · exact ⟨rfl, rfl⟩
+  · exact ⟨ha a rfl, rfl⟩
+  · exact ⟨rfl, rfl⟩
+
+theorem wfEntries_leaves : ∀ l : List (String × Value α), (∀ e ∈ l, Leaf e.2) →
+    (∀ e ∈ l, ∀ a, e.2 = .array a → (a.shape != []) = true) → Output.wfEntries l = true
+  | [], _, _ => rfl
+  | (k, v) :: r, h, ha => by
+    simp [Output.wfEntries, (wf_leaf (h (k, v) List.mem_cons_self) (ha (k, v) List.mem_cons_self)).1,
+      wfEntries_leaves r (fun e he => h e (List.mem_cons_of_mem _ he)) (fun e he => ha e (List.mem_cons_of_mem _ he))]
+
+theorem notDict_leaves (l : List (String × Value α)) (h : ∀ e ∈ l, Leaf e.2) : ∀ e ∈ l, Output.isDict e.2 = false := by
+  intro e he
+  rcases h e he with (⟨i, hi⟩ | ⟨x, hx⟩ | ⟨b, hb⟩) | ⟨a, ha⟩ | ⟨t, ht⟩ <;> simp [*, Output.isDict]
+
+/-- `group.write_scalar(key, v)` for a Python scalar -/
+theorem w_write_scalar (w : WWorld α) (p : List String) (key : String) (v : Value α) (h : Scalar v) (s : Log α) :
+    w.ext.method (.group p) "write_scalar" [.str key, embW w.enc v] [] s = (.ok .none, s ++ [(p, key, leafNode v)]) := by
+  rcases h with ⟨i, rfl⟩ | ⟨x, rfl⟩ | ⟨b, rfl⟩ <;> rfl
+
+/-- `a / b` of two floats, `b ≠ 0` -/
+theorem w_div (w : WWorld α) (a b : α) (hb : FloatLike.isZero b = false) (s : Log α) :
+    Dyn.truediv w.ext (.float a) (.float b) s = (.ok (.float (w.div a b)), s) := by
+  show (if FloatLike.isZero b = true then (throw Exc.ZeroDivisionError : SM α (WV α)) else pure (.float (w.div a b))) s = _
+  simp [hb]
+
+/-- a module-level float constant -/
+theorem w_const (w : WWorld α) (name : String) (x : α) (hn : name ≠ "np") (h : w.consts name = some x) (s : Log α) :
+    w.ext.global name s = (.ok (.float x), s) := by
+  simp [WWorld.ext, hn, h]
+
+theorem embWL_length (enc : List Nat → String) : ∀ l : List (Value α), (embWL enc l).length = l.length
+  | [] => rfl
+  | v :: vs => by simp [embWL, embWL_length enc vs]
+
+/-- the entries of a list of optional scalars that are not `None` (the model's `unsupported`) -/
+def present : List (String × Value α) → List (String × Value α)
+  | [] => []
+  | (k, v) :: r => match v with
+    | .unsupported => present r
+    | _ => (k, v) :: present r
+
+/-- `for name, value in ((k1, v1), …): if value is not None: group.write_scalar(name, value)` -/
+theorem forM_present (w : WWorld α) (p : List String) (body : Unit → WV α → SM α Unit)
+    (hb : ∀ (k : String) (v : Value α) (s : Log α), body () (.tuple [.str k, embW w.enc v]) s
+        = (if (!Dyn.Val.isNone (embW w.enc v)) = true then
+            (w.ext.method (.group p) "write_scalar" [.str k, embW w.enc v] [] >>= fun _ => pure ()) s
+           else (.ok (), s))) :
+    ∀ (l : List (String × Value α)) (s : Log α), (∀ e ∈ l, e.2 = .unsupported ∨ Scalar e.2) →
+      Dyn.forM (l.map (fun e => (Dyn.Val.tuple [.str e.1, embW w.enc e.2] : WV α))) () body s
+        = (.ok (), s ++ (present l).map (fun e => (p, e.1, leafNode e.2)))
+  | [], s, _ => by simp [Dyn.forM, present]
+  | (k, v) :: r, s, h => by
+    have ih := forM_present w p body hb r
+    have hr : ∀ e ∈ r, e.2 = .unsupported ∨ Scalar e.2 := fun e he => h e (List.mem_cons_of_mem _ he)
+    simp only [List.map_cons, Dyn.forM]
+    rw [eff_bind, hb]
+    rcases h (k, v) List.mem_cons_self with hv | hv
+    · simp only at hv
+      subst hv
+      simp only [embW, Dyn.Val.isNone, Bool.not_true, Bool.false_eq_true, if_false, present]
+      exact ih s hr
+    · have hne : Dyn.Val.isNone (embW w.enc v) = false := by
+        rcases hv with ⟨i, rfl⟩ | ⟨x, rfl⟩ | ⟨b, rfl⟩ <;> rfl
+      have hp : present ((k, v) :: r) = (k, v) :: present r := by
+        rcases hv with ⟨i, rfl⟩ | ⟨x, rfl⟩ | ⟨b, rfl⟩ <;> rfl
+      simp only [hne, Bool.not_false, if_true, eff_bind, w_write_scalar w p k v hv, eff_pure, hp, List.map_cons]
+      rw [ih _ hr]
+      simp
+
+theorem present_leaves : ∀ l : List (String × Value α), (∀ e ∈ l, e.2 = .unsupported ∨ Scalar e.2) →
+    ∀ e ∈ present l, Scalar e.2
+  | [], _, e, he => by simp [present] at he
+  | (k, v) :: r, h, e, he => by
+    have hr : ∀ e ∈ r, e.2 = .unsupported ∨ Scalar e.2 := fun e he => h e (List.mem_cons_of_mem _ he)
+    rcases h (k, v) List.mem_cons_self with hv | hv
+    · simp only at hv
+      subst hv
+      exact present_leaves r hr e (by simpa [present] using he)
+    · have hp : present ((k, v) :: r) = (k, v) :: present r := by
+        rcases hv with ⟨i, rfl⟩ | ⟨x, rfl⟩ | ⟨b, rfl⟩ <;> rfl
+      rw [hp] at he
+      rcases List.mem_cons.1 he with rfl | he
+      · exact hv
+      · exact present_leaves r hr e he
+
+theorem leaves_nil : ∀ e ∈ ([] : List (String × Value α)), Leaf e.2 := fun e he => by cases he
+
+theorem leaves_cons {k : String} {v : Value α} {r : List (String × Value α)} (hv : Leaf v) (hr : ∀ e ∈ r, Leaf e.2) :
+    ∀ e ∈ (k, v) :: r, Leaf e.2 := by
+  intro e he
+  rcases List.mem_cons.1 he with rfl | he
+  · exact hv
+  · exact hr e he
+
+/-- the stored form of a dictionary whose entries are scalars, arrays and strings -/
+theorem store_dict_leaves (name : String) (entries : List (String × Value α)) (h : ∀ e ∈ entries, Leaf e.2) :
+    storeThing name (.dict entries) = .ok [(name, .group (entries.map (fun e => (e.1, leafNode e.2))))] := by
+  rw [storeThing_dict, storeEntries_leaves _ h]
+
+/-- `flat` of entries that are not groups -/
+theorem flat_leaves (p : List String) : ∀ l : List (String × Value α), (∀ e ∈ l, Scalar e.2) →
+    flat p (l.map (fun e => (e.1, leafNode e.2))) = l.map (fun e => (p, e.1, leafNode e.2))
+  | [], _ => rfl
+  | (k, v) :: r, h => by
+    have ih := flat_leaves p r (fun e he => h e (List.mem_cons_of_mem _ he))
+    have hv : Scalar v := h (k, v) List.mem_cons_self
+    rcases hv with ⟨i, rfl⟩ | ⟨x, rfl⟩ | ⟨b, rfl⟩ <;>
+    · simp only [List.map_cons, flat]
+      rw [ih]
+      rfl
+
+theorem leafNode_int (i : Int) : leafNode (.int i : Value α) = .num ⟨[], .ints [i]⟩ := rfl
+theorem leafNode_float (x : α) : leafNode (.float x : Value α) = .num ⟨[], .floats [x]⟩ := rfl
+theorem leafNode_bool (b : Bool) : leafNode (.bool b : Value α) = .num ⟨[], .bools [b]⟩ := rfl
+theorem leafNode_array (a : Arr α) : leafNode (.array a : Value α) = .num a := rfl
+theorem leafNode_str (t : List Nat) : leafNode (.str t : Value α) = .vstr t := rfl
+
+/-- a leaf is stored as one entry -/
+theorem flatNode_leaf (p : List String) (k : String) {v : Value α} (h : Leaf v) :
+    flatNode p k (leafNode v) = [(p, k, leafNode v)] := by
+  rcases h with (⟨i, rfl⟩ | ⟨x, rfl⟩ | ⟨b, rfl⟩) | ⟨a, rfl⟩ | ⟨t, rfl⟩ <;> rfl
+
+/-! ### entries that are read back unchanged -/
+
+/-- a scalar, an array of dimension ≥ 1 or a string -/
+def WfLeaf (v : Value α) : Prop := Scalar v ∨ (∃ a, v = .array a ∧ (a.shape != []) = true) ∨ (∃ t, v = .str t)
+
+theorem wfLeaf_scalar {v : Value α} (h : Scalar v) : WfLeaf v := Or.inl h
+theorem wfLeaf_array (a : Arr α) (h : (a.shape != []) = true) : WfLeaf (Value.array a) := Or.inr (Or.inl ⟨a, rfl, h⟩)
+theorem wfLeaf_str (t : List Nat) : WfLeaf (Value.str t : Value α) := Or.inr (Or.inr ⟨t, rfl⟩)
+
+theorem wfLeaf_wf {v : Value α} (h : WfLeaf v) : Output.wfVal v = true ∧ Output.isDict v = false := by
+  rcases h with (⟨i, rfl⟩ | ⟨x, rfl⟩ | ⟨b, rfl⟩) | ⟨a, rfl, ha⟩ | ⟨t, rfl⟩
+  · exact ⟨rfl, rfl⟩
+  · exact ⟨rfl, rfl⟩
+  · exact ⟨rfl, rfl⟩
+  · exact ⟨ha, rfl⟩
+  · exact ⟨rfl, rfl⟩
+
+theorem wfl_nil : ∀ e ∈ ([] : List (String × Value α)), WfLeaf e.2 := fun e he => by cases he
+
+theorem wfl_cons {k : String} {v : Value α} {r : List (String × Value α)} (hv : WfLeaf v) (hr : ∀ e ∈ r, WfLeaf e.2) :
+    ∀ e ∈ (k, v) :: r, WfLeaf e.2 := by
+  intro e he
+  rcases List.mem_cons.1 he with rfl | he
+  · exact hv
+  · exact hr e he
+
+theorem wfl_append {l r : List (String × Value α)} (hl : ∀ e ∈ l, WfLeaf e.2) (hr : ∀ e ∈ r, WfLeaf e.2) :
+    ∀ e ∈ l ++ r, WfLeaf e.2 := by
+  intro e he
+  rcases List.mem_append.1 he with he | he
+  · exact hl e he
+  · exact hr e he
+
+theorem wfEntries_wfl : ∀ l : List (String × Value α), (∀ e ∈ l, WfLeaf e.2) → Output.wfEntries l = true
+  | [], _ => rfl
+  | (k, v) :: r, h => by
+    simp [Output.wfEntries, (wfLeaf_wf (h (k, v) List.mem_cons_self)).1,
+      wfEntries_wfl r (fun e he => h e (List.mem_cons_of_mem _ he))]
+
+theorem notDict_wfl (l : List (String × Value α)) (h : ∀ e ∈ l, WfLeaf e.2) : ∀ e ∈ l, Output.isDict e.2 = false :=
+  fun e he => (wfLeaf_wf (h e he)).2
 
 end
 end
